@@ -408,9 +408,9 @@ def _amen_solve_python(A, b, nswp=22, x0=None, eps=1e-10, rmax=1024, max_full=50
             # update phis (einsum)
             # print(x_cores[k].shape,A.cores[k].shape,x_cores[k].shape)
             Phis[k] = _compute_phi_bck_A(
-                Phis[k+1], x_cores[k], A.cores[k], x_cores[k])
+                Phis[k+1], tn.conj(x_cores[k]), A.cores[k], x_cores[k])
             Phis_b[k] = _compute_phi_bck_rhs(
-                Phis_b[k+1], b.cores[k], x_cores[k])
+                Phis_b[k+1], b.cores[k], tn.conj(x_cores[k]))
 
             # ... and norms
             norm = tn.linalg.norm(Phis[k])
@@ -428,9 +428,9 @@ def _amen_solve_python(A, b, nswp=22, x0=None, eps=1e-10, rmax=1024, max_full=50
             # compute phis_z
             if not last:
                 Phiz[k] = _compute_phi_bck_A(
-                    Phiz[k+1], z_cores[k], A.cores[k], x_cores[k]) / normA[k-1]
+                    Phiz[k+1], tn.conj(z_cores[k]), A.cores[k], x_cores[k]) / normA[k-1]
                 Phiz_b[k] = _compute_phi_bck_rhs(
-                    Phiz_b[k+1], b.cores[k], z_cores[k]) / normb[k-1]
+                    Phiz_b[k+1], b.cores[k], tn.conj(z_cores[k])) / normb[k-1]
 
         # start loop
         max_res = 0
@@ -645,9 +645,9 @@ def _amen_solve_python(A, b, nswp=22, x0=None, eps=1e-10, rmax=1024, max_full=50
 
                 # next phis with norm correction
                 Phis[k+1] = _compute_phi_fwd_A(Phis[k],
-                                               x_cores[k], A.cores[k], x_cores[k])
+                                               tn.conj(x_cores[k]), A.cores[k], x_cores[k])
                 Phis_b[k +
-                       1] = _compute_phi_fwd_rhs(Phis_b[k], b.cores[k], x_cores[k])
+                       1] = _compute_phi_fwd_rhs(Phis_b[k], b.cores[k], tn.conj(x_cores[k]))
 
                 # ... and norms
                 norm = tn.linalg.norm(Phis[k+1])
@@ -664,10 +664,10 @@ def _amen_solve_python(A, b, nswp=22, x0=None, eps=1e-10, rmax=1024, max_full=50
 
                 # next phiz
                 if not last:
-                    Phiz[k+1] = _compute_phi_fwd_A(Phiz[k], z_cores[k],
+                    Phiz[k+1] = _compute_phi_fwd_A(Phiz[k], tn.conj(z_cores[k]),
                                                    A.cores[k], x_cores[k]) / normA[k]
                     Phiz_b[k+1] = _compute_phi_fwd_rhs(
-                        Phiz_b[k], b.cores[k], z_cores[k]) / normb[k]
+                        Phiz_b[k], b.cores[k], tn.conj(z_cores[k])) / normb[k]
             else:
                 x_cores[k] = tn.reshape(
                     u@tn.diag(s[:r]) @ v[:r, :].t(), [rx[k], N[k], rx[k+1]])
